@@ -9,6 +9,7 @@ import os
 import sys
 import types
 import weakref
+import threading
 import linecache
 
 from . import common
@@ -103,6 +104,17 @@ class Sources:
             return compile(f.read(), p, 'exec')
 
 
+_SOURCES = {}
+
+
+def sources_for(root):
+    """One Sources per directory and process (a source file is written once and never rewritten)."""
+    s = _SOURCES.get(root)
+    if s is None:
+        s = _SOURCES[root] = Sources(root)
+    return s
+
+
 def new_globals(name, gval):
     return {'__name__': name, '__builtins__': __builtins__, 'G': gval}
 
@@ -119,9 +131,14 @@ class Registry:
         self._opts = {}        # as_tuple -> oid
         self._opt_objs = {}    # oid -> ConversionOptions
         self._keep = []        # globals dicts named in env keys stay alive (id stability)
+        self._lock = threading.RLock()
 
     # -- code objects
     def code_id(self, code, create=True):
+        with self._lock:
+            return self._code_id(code, create)
+
+    def _code_id(self, code, create):
         ent = self._codes.get(id(code))
         if ent is not None and ent[0]() is code:
             return ent[1]
@@ -159,6 +176,10 @@ class Registry:
 
     def env_id(self, fn, create=True):
         key = self.env_key(fn, fn.__code__.co_freevars)
+        with self._lock:
+            return self._env_id(fn, key, create)
+
+    def _env_id(self, fn, key, create):
         eid = self._envs.get(key)
         if eid is None and create:
             eid = self._next_env
@@ -197,6 +218,10 @@ class Registry:
             key = (bool(r), bool(u), bool(i), tuple(sorted(str(f) for f in fs)))
         except Exception:
             return 0
+        with self._lock:
+            return self._opt_id(subkey, key, create)
+
+    def _opt_id(self, subkey, key, create):
         oid = self._opts.get(key)
         if oid is None and create:
             oid = len(self._opts) + 1
